@@ -170,6 +170,10 @@ Fixpoint diag_from (i : nat) (cs : list case) : list (nat * nat) :=
 Definition diag := diag_from 0.
 
 (* ---------- helpers for the generated files ---------- *)
+(* run-length encoded lists: the harness sends large bodies made of thousands of identical filler rows / entries; the
+   generated case carries (count, element) pairs and the list is rebuilt here, inside vm_compute *)
+Definition rle {A : Type} (l : list (N * A)) : list A :=
+  flat_map (fun p => N.iter (fst p) (cons (snd p)) []) l.
 Fixpoint lookup_bits (l : list (list bool * string)) (b : list bool) : option string :=
   match l with [] => None | (x, tok) :: l' => if list_eqb Bool.eqb x b then Some tok else lookup_bits l' b end.
 (* a scenario descriptor: [invalid] lists the action sets (among those evaluated on fresh instances in this run) that
